@@ -34,8 +34,9 @@ def lemma(fn):
 
 
 class Loop:
-    def __init__(self, inv=None, modifies=None, elem=None):
+    def __init__(self, inv=None, modifies=None, elem=None, step=None, lean=False):
         self.inv = inv if isinstance(inv, (list, tuple)) else [inv]
+        self.step = step
         self.modifies = modifies
         self.elem = elem
 
@@ -68,7 +69,7 @@ def iff(a, b):
     return bool(a) == bool(b)
 
 
-def forall(lo, hi, p):
+def forall(lo, hi, p, pattern=None):
     return all(p(i) for i in range(lo, hi))
 
 
@@ -101,6 +102,14 @@ def same(a, b):
     if memo is not None:
         return memo.get(id(a)) is b or memo.get(id(b)) is a
     return False
+
+
+def hint(x):
+    return True
+
+
+def forall_str(p):
+    return True
 
 
 def forall_ref(p, cls=None):
@@ -182,3 +191,9 @@ class _World:
 
 
 WORLD = _World()
+
+
+def distinct_strs(l):
+    """the entries of a list of str are pairwise different"""
+    l = list(l)
+    return len(set(l)) == len(l)
